@@ -281,7 +281,7 @@ def evaluate(case, ctx, need_info=False):
     ev.exact = [a.exact(n) for a in ans]
     ev.exact_f = [complex(v) if isinstance(v, mp.mpc) else float(v) for v in ev.exact]
     # scales
-    ev.S, ev.S1, ev.hmin, ev.hmax, ev.U, ev.Umax, ev.Ux, ev.Thead = [], [], [], [], [], [], [], []
+    ev.S, ev.S1, ev.hmin, ev.hmax, ev.U, ev.Umax, ev.Ux, ev.Thead, ev.Rmax = [], [], [], [], [], [], [], [], []
     ev.amp = float(np.sum(np.abs(d.fd_rule.rule(ratio)))) if n > 0 else 1.0
     ev.amp = max(ev.amp, 1.0)
     for j, a in enumerate(ans):
@@ -292,6 +292,7 @@ def evaluate(case, ctx, need_info=False):
             ev.Umax.append(None)
             ev.Ux.append(None)
             ev.Thead.append(None)
+            ev.Rmax.append(None)
             ev.hmin.append(None)
             ev.hmax.append(None)
             continue
@@ -319,6 +320,7 @@ def evaluate(case, ctx, need_info=False):
             heads_r = sorted(hs, reverse=True)[:max(ev.k_est - t, 1)]
             u_x = envelope_unit(a, n, p_true + s_true * t, heads_r, w,
                                 difference_forming(method, n, d.order), ev.amp * amp_r)
+        amp_all = ev.amp * (richardson_amplification(float(abs(ratio)), p_true, s_true, t) if t > 0 else 1.0)
         if u_basic is not None and u_x is not None and u_x[0] < u_basic[0]:
             ev.U.append(u_x)
         else:
@@ -327,13 +329,16 @@ def evaluate(case, ctx, need_info=False):
         # p + s*t may only be demanded when even the largest step is in the asymptotic regime, i.e.
         # the raw truncation T_p at the largest window head is a small fraction of the scale S_n
         ev.Ux.append(u_x)
+        # largest rounding unit over the windows (truncation terms switched off)
+        r_only = envelope_unit(a, n, a.K - 1 - n, heads, w, difference_forming(method, n, d.order), amp_all,
+                               pick='max')
+        ev.Rmax.append(None if r_only is None else r_only[2])
         t_head = envelope_unit(a, n, p_eff, [max(heads)], w, difference_forming(method, n, d.order), 1.0)
         ev.Thead.append(None if t_head is None else t_head[1])
         # worst-window unit (user-supplied steps): every candidate the library can return is a
         # Richardson combination of the raw estimates of the windows, so its error is at most
         # sum|w_R| * max over ALL windows of the raw unit (no assumption that the sequence is in its
         # asymptotic regime or that the best window is selected)
-        amp_all = ev.amp * (richardson_amplification(float(abs(ratio)), p_true, s_true, t) if t > 0 else 1.0)
         ev.Umax.append(envelope_unit(a, n, p_eff, heads, w, difference_forming(method, n, d.order),
                                      amp_all, pick='max'))
         ev.hmin.append(hmin)
